@@ -68,7 +68,12 @@ func compileVariant(w *W, tree *Node, src string, cfg CaseCfg, label string) (*V
 		return nil, false
 	}
 	if co.Err != nil {
-		w.Fail("compile-rejects-wellformed", "Compile rejected a well-formed program: %v\nsource: %s\nconfig: %s", co.Err, src, cfg)
+		if c09Expect(tree, cfg.Opts, cfg.Events) != 0 {
+			// beyond (or, after flattening / event-node insertion, possibly beyond) a capacity limit: a legitimate rejection
+			w.Inc("rejected_by_capacity_limit")
+			return nil, false
+		}
+		w.Fail("compile-rejects-wellformed", "Compile rejected a well-formed program: %v\nsource: %s\nconfig: %s", co.Err, firstN(src, 3000), cfg)
 		return nil, false
 	}
 	v.E = e
